@@ -29,17 +29,36 @@ pub fn run_cli_flags(args: &Args, property: &str) -> Report {
             "C06" => &[3],
             "C07" => &[4],
             "C09" => &[1, 2],
-            "C13" => &[0],
+            "C13" => &[0, 0, 1, 2, 3],
             _ => &[0, 1, 2, 3, 4],
         };
         let variant = *rng.pick(variants);
         let mut cfg = RunCfg::build_all();
         cfg.threads = 1 + rng.below(4);
         cfg.recursive = rng.chance(2, 3);
-        let mut flags: Vec<String> = vec!["-q".into(), "-j".into(), cfg.threads.to_string()];
-        if cfg.recursive {
-            flags.push("-r".into());
+        // flags in varying order, with and without -q (neither changes what is computed)
+        let mut flags: Vec<String> = vec![];
+        let quiet = rng.chance(3, 4);
+        let jflag = vec!["-j".to_string(), cfg.threads.to_string()];
+        match rng.below(3) {
+            0 => {
+                if quiet { flags.push("-q".into()); }
+                flags.extend(jflag);
+                if cfg.recursive { flags.push("-r".into()); }
+            }
+            1 => {
+                if cfg.recursive { flags.push("--recursive".into()); }
+                flags.extend(jflag);
+                if quiet { flags.push("--quiet".into()); }
+            }
+            _ => {
+                flags.extend(jflag);
+                if cfg.recursive { flags.push("-r".into()); }
+                if quiet { flags.push("-q".into()); }
+            }
         }
+        // what may stand in front of a sub-command without meaning anything for it: the sub-command has its own flags
+        let mut top: Vec<String> = vec![];
         // inputs: the whole tree, a sub-directory, or some sources by name (source name or output name)
         if !matches!(property, "C09" | "C13") && rng.chance(1, 2) {
             let mut inputs: Vec<String> = vec![];
@@ -63,25 +82,51 @@ pub fn run_cli_flags(args: &Args, property: &str) -> Report {
             }
             1 | 2 => {
                 cfg.mode = "needed";
-                flags.push("-N".into());
+                flags.push(if rng.chance(1, 2) { "-N".into() } else { "--needed".into() });
+                if rng.chance(1, 2) {
+                    cfg.trailing = false;
+                    flags.push("-n".into());
+                }
             }
             3 => {
                 cfg.mode = "verify";
                 sub = Some("verify");
+                if rng.chance(1, 2) {
+                    cfg.trailing = false;
+                    flags.push(if rng.chance(1, 2) { "-n".into() } else { "--no-trailing-newline".into() });
+                }
+                if rng.chance(1, 3) {
+                    top.push("-N".into());
+                }
             }
             _ => {
                 cfg.mode = "clean";
                 sub = Some("clean");
+                if rng.chance(1, 3) {
+                    top.push("-N".into());
+                }
             }
         }
         // both start from the same tree; for needed/verify/clean from a built tree
         materialize(&p, &pa);
         if variant != 0 {
-            let _ = run_impl(&pa, &RunCfg::build_all(), &log);
-            if variant == 2 {
-                // make one output stale
-                let o = output_name(&p.sources[0]);
+            let mut b0 = RunCfg::build_all();
+            if variant != 4 {
+                b0.trailing = cfg.trailing;
+            }
+            let _ = run_impl(&pa, &b0, &log);
+            if variant == 2 || (variant == 3 && rng.chance(1, 2)) {
+                // make one output stale (verify must then fail, also through the exit status)
+                let o = output_name(&p.sources[rng.below(p.sources.len())]);
                 let _ = std::fs::write(pa.join(&o), b"stale\n");
+            }
+            if variant == 4 && rng.chance(1, 3) {
+                // an output that is already gone, possibly named as an input: its temp files must still be cleaned
+                let s0 = p.sources[rng.below(p.sources.len())].clone();
+                let _ = std::fs::remove_file(pa.join(output_name(&s0)));
+                if rng.chance(1, 2) {
+                    cfg.inputs = vec![output_name(&s0)];
+                }
             }
         }
         let (start, _) = snapshot(&pa);
@@ -92,7 +137,7 @@ pub fn run_cli_flags(args: &Args, property: &str) -> Report {
         let mut c = Command::new(&bin);
         c.current_dir(&pb).env_remove("TXTPP_FILE").env("VERIF_LOG", &log);
         if let Some(s) = sub {
-            c.arg(s);
+            c.args(&top).arg(s);
         }
         c.args(&flags).args(&cfg.inputs);
         let out = c.output().expect("cli");
@@ -115,7 +160,7 @@ pub fn run_cli_flags(args: &Args, property: &str) -> Report {
             }
         }
         if let Some(what) = bad {
-            rep.violation("oracle", &format!("{property}: CLI `{} {} {:?}`: {what}", sub.unwrap_or(""), flags.join(" "), cfg.inputs), &replay_body(&start, &cfg, &p.cmds, &format!("# CLI flags: {:?} {:?}\n# {what}\n", sub, flags)));
+            rep.violation("oracle", &format!("{property}: CLI `{} {} {} {:?}`: {what}", top.join(" "), sub.unwrap_or(""), flags.join(" "), cfg.inputs), &replay_body(&start, &cfg, &p.cmds, &format!("# CLI flags: {:?} {:?}\n# {what}\n", sub, flags)));
         }
         if i == 0 {
             rep.sample(format!("CLI `{} {} {:?}` vs library {} => exit ok={cli_ok}, verdict {}", sub.unwrap_or(""), flags.join(" "), cfg.inputs, cfg.describe(), lib.verdict));
@@ -124,3 +169,53 @@ pub fn run_cli_flags(args: &Args, property: &str) -> Report {
     let _ = std::fs::remove_dir_all(&dir);
     rep
 }
+
+/// The same case once more through the CLI binary: the tree `before` is written to `scratch`, the binary is run
+/// there with the flags that correspond to `cfg`, and exit status and resulting files are compared with what
+/// the library produced (`lib`). `None` = they agree.
+pub fn cli_agrees(bin: &std::path::Path, before: &Tree, cfg: &RunCfg, lib: &Obs, lib_base: &str, scratch: &std::path::Path) -> Option<String> {
+    let _ = std::fs::remove_dir_all(scratch);
+    std::fs::create_dir_all(scratch).ok()?;
+    let scratch = scratch.canonicalize().ok()?;
+    let tree_dir = scratch.join("t");
+    std::fs::create_dir_all(&tree_dir).ok()?;
+    write_tree(before, &tree_dir);
+    let mut c = Command::new(bin);
+    c.current_dir(&tree_dir).env_remove("TXTPP_FILE").env("VERIF_LOG", scratch.join("markers.log"));
+    match cfg.mode {
+        "needed" => { c.arg("-N"); }
+        "verify" => { c.arg("verify"); }
+        "clean" => { c.arg("clean"); }
+        _ => {}
+    }
+    c.arg("-q").arg("-j").arg(cfg.threads.to_string());
+    if cfg.recursive {
+        c.arg("-r");
+    }
+    if !cfg.trailing && cfg.mode != "clean" {
+        c.arg("-n");
+    }
+    let tree_abs = tree_dir.to_string_lossy().to_string();
+    for i in &cfg.inputs {
+        // absolute inputs of the library case point into its own base directory
+        if let Some(rest) = i.strip_prefix(lib_base) {
+            c.arg(format!("{tree_abs}{rest}"));
+        } else {
+            c.arg(i);
+        }
+    }
+    let out = c.output().ok()?;
+    let (after, _) = snapshot(&tree_dir);
+    let cli_ok = out.status.success();
+    let res = if cli_ok != (lib.verdict == "ok") {
+        Some(format!("the CLI binary exits with success={cli_ok} where the library run of the same case gives `{}`", lib.verdict))
+    } else if cli_ok && after.files != lib.after.files {
+        let diff: Vec<&String> = after.files.keys().chain(lib.after.files.keys()).filter(|k| after.files.get(*k) != lib.after.files.get(*k)).collect();
+        Some(format!("after the CLI run the tree differs from the tree after the library run of the same case: {:?}", diff))
+    } else {
+        None
+    };
+    let _ = std::fs::remove_dir_all(&scratch);
+    res
+}
+
